@@ -17,7 +17,7 @@ from vf.common import MachineryError
 
 PROP = "C06"
 CONC = {"L": ["a", "Z", "q"], "D": ["0", "7"], "U": ["_"], "S": ["/"], "N": ["\n"], "P": [" ", ";", "(", "'", ":", "-", ".", "$", "\\", '"', ")", ",", "=", "#", "*"],
-        "X": ["é", "ｆ", "а", "K"], "C": ["\x00", "\r", "\t", "\x7f", "\x0b", "\x1b"]}
+        "X": ["é", "ｆ", "а", "中"], "F": ["\u0131", "\u0130", "\u017f", "\u212a", "\ufb01", "\u00aa"], "C": ["\x00", "\r", "\t", "\x7f", "\x0b", "\x1b"]}
 TRIP = os.path.join(common.VERIF, ".scratch", "c06_tripwire")
 PAYLOADS = [
     "a=1):\n        pass\n    __import__('os').system('touch %s')\n    def x(self" % TRIP,
@@ -106,7 +106,9 @@ def run(tier):
 
     ctx = check.Ctx(PROP, tier)
     thorough = tier == "thorough"
-    ctx.design("MC_Descriptor", "MC_Descriptor.cfg", "accepted => grammatical, for all class-strings <= 5 over 8 character classes (field and type names)")
+    ctx.design("MC_Descriptor", "MC_Descriptor.cfg", "accepted => grammatical, for all class-strings <= 5 over 9 character classes (field and type names)")
+    if thorough:
+        ctx.sensitivity("MC_Descriptor", "MC_Descriptor_dev_IgnoreCase.cfg", "a case-insensitive [a-z] must violate FieldInclusion", "FieldInclusion")
     spy, ispy = ExecSpy(), ImportSpy()
     base.exec = spy
     if os.path.exists(TRIP):
@@ -196,11 +198,12 @@ def run(tier):
             elif ch == "/": out.append("S")
             elif ch == "\n": out.append("N")
             elif ch.isascii() and (ch.isprintable()): out.append("P")
+            elif ch in "\u0131\u0130\u017f\u212a\ufb01\u00aa": out.append("F")
             elif not ch.isascii(): out.append("X")
             else: out.append("C")
         return out
     # (1) every class-string <= 4, two concretisations, both positions, through the constructor
-    alphabet = ["L", "D", "U", "S", "N", "P", "X", "C"]
+    alphabet = ["L", "D", "U", "S", "N", "P", "X", "C", "F"]
     strings = [()]
     for n in range(1, 5):
         strings += list(itertools.product(alphabet, repeat=n))
@@ -212,6 +215,15 @@ def run(tier):
             for pos in ("field", "type"):
                 cases.append(offer(sc, text, pos, "ctor"))
                 ctx.case((pos, text))
+    # (1a) EVERY non-ASCII concretisation (look-alikes and letters that fold / normalise to ASCII) in a few contexts, all paths
+    for ch in CONC["X"] + CONC["F"]:
+        for text in (ch, ch + "d", "u" + ch + "d", "a" + ch, "test/" + ch + "nfo", ch.upper() + "x", ch.lower() + "x"):
+            for pos in ("field", "type"):
+                if "/" in text and pos == "field":
+                    continue
+                for path in ("ctor", "frame", "json"):
+                    cases.append(offer(classes_of(text), text, pos, path))
+                    ctx.case((pos, text, path, "nonascii"))
     # (1b) the candidate as SECOND field, after a Python-keyword field (which selects the other class template) and after a plain one
     reserved_like = ["_source", "_classification", "_generated", "_version", "_x", "__class__", "f0"]
     for before in ("from", "ok"):
@@ -241,6 +253,54 @@ def run(tier):
             for path in ("ctor", "frame", "json", "avro"):
                 cases.append(offer(classes_of(text), text, pos, path))
                 ctx.case((pos, text, path))
+    # (5) history: a VALID definition is read first; then, with new readers, definitions whose strings are another cut of
+    #     the same characters (hence the same name + hash identifier) arrive through the frame and the JSON route
+    from flow.record.whitelist import WHITELIST as WL
+
+    def resplits(fields, rnd, n):
+        s = "".join(nm + ty for ty, nm in fields)
+        out = []
+        for k in range(0, len(s) + 1):                       # one field: name = s[:k], type = s[k:]
+            out.append([(s[k:], s[:k])])
+        for _ in range(n):                                   # two or three fields with random cuts
+            cuts = sorted(rnd.sample(range(0, len(s) + 1), rnd.choice([3, 5])))
+            parts = [s[a:b] for a, b in zip([0] + cuts, cuts + [len(s)])]
+            out.append([(parts[i + 1], parts[i]) for i in range(0, len(parts) - 1, 2)])
+        return [f for f in out if "".join(nm + ty for ty, nm in f) == s and [tuple(x) for x in f] != [tuple(x) for x in fields]]
+
+    def deliver(tname, declared, path):
+        if path == "frame":
+            rd = RecordStreamReader(io.BytesIO(rc.header_frame() + rc.descriptor_frame(tname, declared)))
+            list(rd)
+            return rd.packer.descriptors.get(tname)
+        from flow.record.jsonpacker import JsonRecordPacker
+
+        return JsonRecordPacker().unpack(json.dumps({"_type": "recorddescriptor", "_data": [tname, [list(x) for x in declared]]}))
+
+    valid_defs = [[("unix_file_mode", "mode")], [("string", "user"), ("string", "host")], [("varint", "a"), ("string", "b")], [("uint16", "port")], [("string[]", "tags"), ("boolean", "ok")]]
+    for vi, vf in enumerate(valid_defs):
+        for first in ("frame", "json"):
+            tname = f"resplit/t{vi}{first}"
+            try:
+                deliver(tname, vf, first)
+            except Exception as e:
+                raise MachineryError(f"valid definition {vf} refused via {first}: {e!r}")
+            for cf in resplits(vf, ctx.rnd, 12 if not thorough else 60):
+                for path in ("frame", "json"):
+                    c = {"pos": "resplit", "path": path, "first": first, "text": repr(cf)[:60], "names": [classes_of(nm) for _, nm in cf], "accepted": False, "exc": "none",
+                         "types_ok": all((ty[:-2] if ty.endswith("[]") else ty) in WL for ty, _ in cf), "fields_exact": True, "tripwire": False, "s": []}
+                    try:
+                        dsc = deliver(tname, cf, path)
+                        c["accepted"] = dsc is not None
+                        if dsc is not None:
+                            c["fields_exact"] = dsc.name == tname and [tuple(x) for x in dsc.get_field_tuples()] == [tuple(x) for x in cf]
+                    except BaseException as e:  # noqa
+                        if isinstance(e, (KeyboardInterrupt, SystemExit)):
+                            raise
+                        c["exc"] = type(e).__name__
+                    c["tripwire"] = os.path.exists(TRIP)
+                    cases.append(c)
+                    ctx.case(("resplit", vi, first, path, repr(cf)))
     ctx.sample({"case": cases[100]})
     ctx.sample({"case": cases[-5]})
     # (4) field TYPE names: accepted only if whitelisted (optionally with one []); resolutions stay inside the field-type package
@@ -281,7 +341,13 @@ def run(tier):
         if cid is None:
             raise MachineryError(f"cannot attribute counter-example: {v}")
         c = cases[cid - 1]
-        if v["inv"] == "Contract":
+        if v["inv"] == "Resplit":
+            if cid in seen:
+                continue
+            seen.add(cid)
+            ctx.violation({"check": "Resplit", "first_route": c["first"], "path": c["path"], "definition": c["text"], "accepted": c["accepted"], "fields_exact": c["fields_exact"],
+                           "types_ok": c["types_ok"]}, {"case": c})
+        elif v["inv"] == "Contract":
             if cid in seen:
                 continue
             seen.add(cid)
